@@ -430,7 +430,7 @@ func propSim(c SimCase) pbt.Outcome {
 			got, _ := ruleToModel(r)
 			exp, _ := modelParse(want[i].Text)
 			if !sameRule(got, exp) || r.Suspended != want[i].Suspended {
-				return pbt.Outcome{Fail: pbt.Failf("history", "rule %d after the history is %+v, expected %q suspended=%v\n%s", i, r, want[i].Text, want[i].Suspended, describe(c))}
+				return pbt.Outcome{Fail: pbt.Failf("history", "rule %d after the history is %s, expected %q suspended=%v\n%s", i, rf(r), want[i].Text, want[i].Suspended, describe(c))}
 			}
 		}
 	}
